@@ -123,10 +123,13 @@ func (c Concat) GormValue(_ context.Context, _ *gorm.DB) clause.Expr {
 
 // NamedCarrier is the struct form of named arguments (@N1, @N2, @N3).
 type NamedCarrier struct {
-	N1 interface{}
-	N2 interface{}
-	N3 interface{}
+	N1        interface{}
+	N2        interface{}
+	NamedBase // N3 comes from an embedded struct
 }
+
+// NamedBase is embedded in NamedCarrier.
+type NamedBase struct{ N3 interface{} }
 
 // Reenter is a gorm.Valuer that, while the statement it is an argument of is
 // being built, calls ReenterHook (the checks use it to build and run another
